@@ -82,6 +82,8 @@ def _seed_value(rng, order):
         return rng.randint(m, 64 * m) | 1
     if c < 0.70:
         return rng.choice([1, m - 1, m >> 1, 2, m + 1, -1])
+    if c < 0.76:
+        return rng.choice([2 ** 63 + 5, 2 ** 64 - 1, 2 ** 62, 2 ** 100 + 3, -2 ** 70 - 1, 2 ** 63, -2 ** 63])
     return rng.randint(1, m - 1)
 
 
@@ -181,6 +183,7 @@ class Consumer:
         self.first_call_pending = False
         self.splits = []
         self.streams_checked = 0
+        self.since_ckpt = []
 
     def apply(self, op, step):
         self.rec.n_ops += 1
@@ -217,6 +220,7 @@ class Consumer:
         self.ref_ckpt = self.eff_seed
         self.ckpt_state = self.state
         self.committed, self.buffer, self.splits = [], [], []
+        self.since_ckpt = []
         self.first_call_pending = True
         self.ckpt_first = True
         self.rec.sig(self.order, "open", "None" if s is None else "zero" if self.zero_class else
@@ -264,6 +268,7 @@ class Consumer:
                                          f"{self.ref.state:#x} after {k} bits", "state/value")
         self.state = st
         self.buffer.append(bits.copy())
+        self.since_ckpt.append(k)
         if op.get("scrib") and bits.flags.writeable:
             # the caller owns the returned sequence: e.g. error injection in place.  A later identical request
             # (after a crash-restart) must not see it
@@ -331,6 +336,7 @@ class Consumer:
             return "skip"
         self.committed.extend(self.buffer)
         self.buffer = []
+        self.since_ckpt = []
         self.ckpt_state = self.state
         self.ref_ckpt = self.ref.state
         self.ckpt_first = self.first_call_pending
@@ -341,9 +347,17 @@ class Consumer:
             return "skip"
         lost = sum(len(b) for b in self.buffer)
         self.buffer = []
+        redo = list(self.since_ckpt)
+        self.since_ckpt = []
         self.state = self.ckpt_state
         self.ref.state = self.ref_ckpt
         self.first_call_pending = self.ckpt_first   # raw seed is handed in again if nothing was checkpointed
+        if op.get("regen", True):
+            # the restarted consumer issues exactly the same requests again (same order, len and seed as before)
+            for k_ in redo[:6]:
+                self.gen({"k": k_, "pos": False, "scrib": False})
+            if redo:
+                self.rec.probe("requests re-issued verbatim after a crash")
         if lost:
             self.rec.fault("crash_restart")
         return f"lost={lost}"
